@@ -97,7 +97,8 @@ CompsOf(fv) ==
                 imp |-> IF fv.imports = "twoSources" THEN "other.cellml" ELSE St("lib.cellml", "href", fv),
                 impId |-> IF fv.imports = "twoSources" THEN Id("imp2", "importId2", fv) ELSE Id("imp1", "importId", fv),
                 ref |-> "c", parent |-> NoneS, math |-> NoneS,
-                vars |-> <<Var("p", NoneS, NoneS, NoneS, NoneS)>>, resets |-> <<>>]>>   \* placeholder variable: a name only
+                \* placeholder variable: a name only; it exists only as the partner of a map_variables (CellML has no other way to write it)
+                vars |-> IF fv.nmaps >= 1 THEN <<Var("p", NoneS, NoneS, NoneS, NoneS)>> ELSE <<>>, resets |-> <<>>]>>
         ELSE <<>>)
 MapNames(fv) == <<St("x", "varName", fv), "y", "z">>
 Maps(fv, n) == [i \in 1..n |-> [v1 |-> MapNames(fv)[i], v2 |-> MapNames(fv)[i],
